@@ -4,6 +4,7 @@ CONSTANTS
   NOps = 2
   PartsOf <- MCParts
   FrameLockHeld = TRUE
+  WritesWhole = TRUE
   Connected = FALSE
 INVARIANT FramesIntact
 INVARIANT OrderPerTask
